@@ -90,6 +90,16 @@ Proof.
     constructor; cbn [set_leader la lq lmsg fa fq fmsg c k dirty fhigh hist snap]; auto; try lia.
 Qed.
 
+Lemma consume_fail_inv s : Inv s -> Inv (consume_fail s).
+Proof.
+  intros HI. pose proof HI as [Hl Hf Hc Hlh Hfh [Hk1 Hk2] (G1 & G2 & G3) Hs]. unfold consume_fail.
+  destruct (Z.leb_spec (c s + 1) (la s)) as [Ele|Ele]; cbn [negb]; [|exact HI].
+  destruct (Z.ltb_spec (lq s) (c s + 1)) as [Elt|Elt]; [|lia].
+  cbn [andb negb].
+  destruct (up s); cbn [negb];
+    constructor; cbn [set_leader la lq lmsg fa fq fmsg c k dirty fhigh hist snap]; auto; try lia.
+Qed.
+
 Lemma do_step_inv s so ro : Inv s -> Inv (do_step true s so ro).
 Proof.
   intros HI. unfold do_step. destruct (ready_connect true s) as [s'|] eqn:E.
@@ -104,7 +114,7 @@ Ltac snap_same Hs :=
 Lemma step_inv s e : Inv s -> ok_step s e = true -> Inv (step true s e).
 Proof.
   intros HI Hok. pose proof HI as [Hl Hf Hc Hlh Hfh [Hk1 Hk2] (G1 & G2 & G3) Hs].
-  destruct e as [|so ro| | | | | | | |]; cbn [step].
+  destruct e as [|so ro| | | | | | | | |]; cbn [step].
   - (* LAppend: only while the follower is not ahead *)
     cbn [ok_step] in Hok. apply negb_true_iff in Hok. specialize (Hc Hok).
     constructor; cbn [la lq lmsg fa fq fmsg c k dirty fhigh hist snap].
@@ -119,6 +129,10 @@ Proof.
     + intros im Him. destruct (Hs im Him) as (A1 & A2 & A3 & A4 & A5 & A6 & A7). unfold img_ok; cbn [la lq fhigh hist]. repeat split; try lia.
       intros i Hi. rewrite upd_other by lia. apply A7, Hi.
   - destruct (pending s); [exact HI|apply do_step_inv, HI].
+  - (* StepAppendFail *)
+    destruct (pending s); [exact HI|]. destruct (ready_connect true s) as [s'|] eqn:E.
+    + apply consume_fail_inv. eapply ready_connect_inv; eauto.
+    + apply set_flags_inv, HI.
   - destruct (pending s); [exact HI|]. destruct (ready_connect true s) as [s'|] eqn:E; [eapply ready_connect_inv; eauto|exact HI].
   - apply set_flags_inv, HI.
   - (* FollowerLoseLog *)
